@@ -268,7 +268,7 @@ def show_case(c):
 def same_on_all_ranks(Q, h):
     fails = []
     for (e, q), per in Q.items():
-        if q == 'B.gather0' or q == 'for_all':
+        if q in ('B.gather0', 'for_all', 'A.for_all'):
             continue
         if len(set(per.values())) > 1:
             fails.append({'what': 'query %s after epoch %d differs between ranks: %s' % (q, e, per)})
